@@ -1,0 +1,54 @@
+//! Verification hooks (compiled only with `--cfg redb_verif`): thin public wrappers around
+//! crate-private types so that an external harness can drive the real code. Add-only.
+#![allow(missing_docs, clippy::pedantic, clippy::all, dead_code)]
+
+use super::buddy_allocator::BuddyAllocator;
+use alloc::vec::Vec;
+
+/// Wrapper around the real `BuddyAllocator`
+pub struct VerifBuddy(BuddyAllocator);
+
+impl VerifBuddy {
+    pub fn new(num_pages: u32, max_page_capacity: u32) -> Self {
+        Self(BuddyAllocator::new(num_pages, max_page_capacity))
+    }
+    pub fn alloc(&mut self, order: u8) -> Option<u32> {
+        self.0.alloc(order)
+    }
+    pub fn alloc_lowest(&mut self, order: u8) -> Option<u32> {
+        self.0.alloc_lowest(order)
+    }
+    pub fn free(&mut self, page: u32, order: u8) -> u8 {
+        self.0.free(page, order)
+    }
+    pub fn record_alloc(&mut self, page: u32, order: u8) -> bool {
+        self.0.record_alloc(page, order)
+    }
+    pub fn resize(&mut self, new_size: u32) {
+        self.0.resize(new_size);
+    }
+    pub fn to_vec(&self) -> Vec<u8> {
+        self.0.to_vec()
+    }
+    pub fn from_bytes(data: &[u8]) -> Self {
+        Self(BuddyAllocator::from_bytes(data))
+    }
+    pub fn len(&self) -> u32 {
+        self.0.len()
+    }
+    pub fn max_order(&self) -> u8 {
+        self.0.get_max_order()
+    }
+    pub fn count_free_pages(&self) -> u32 {
+        self.0.count_free_pages()
+    }
+    pub fn count_allocated_pages(&self) -> u32 {
+        self.0.count_allocated_pages()
+    }
+    pub fn trailing_free_pages(&self) -> u32 {
+        self.0.trailing_free_pages()
+    }
+    pub fn highest_free_order(&self) -> Option<u8> {
+        self.0.highest_free_order()
+    }
+}
